@@ -308,6 +308,13 @@ def registerUnhashable (env : Env) (sv : Services) : List (List Nat) → CmdRes
   | [] => ⟨sv, [], .ok ack⟩
   | s :: _ => ⟨alSet keyCode sv (.str (strUpper env s)) (innerOf sv (.str (strUpper env s))), [], .error .typeError⟩
 
+/-- `brine.dump(((host, port),))` at the head of `cmd_register`, where the code has it (`Gen.registerChecksSendable`,
+observed): an address that cannot be dumped (`RecursionError` for a port nested near the recursion limit) is refused
+before anything is stored, because no reply to a query could carry it -/
+def registerRefuses (env : Env) (a : Addr) : Bool :=
+  Gen.registerChecksSendable &&
+    (env.dumpOverflows (.tuple [addrVal a]) || (match dump (.tuple [addrVal a]) with | .ok _ => false | .error _ => true))
+
 /-- `cmd_register(host, names, port)`: the debug line joins the names before anything is stored, so a
 `names` that is not an iterable of text raises `TypeError` with the table untouched -/
 def cmdRegister (env : Env) (sv : Services) (host names port : Val) (now : Int) : CmdRes :=
@@ -316,7 +323,8 @@ def cmdRegister (env : Env) (sv : Services) (host names port : Val) (now : Int) 
   | .ok xs => match allStr xs with
     | none => ⟨sv, [], .error .typeError⟩
     | some ss =>
-      if hashable (addrVal (host, port)) then
+      if registerRefuses env (host, port) then ⟨sv, [], .error .recursionError⟩
+      else if hashable (addrVal (host, port)) then
         ⟨(regLoop env (host, port) now ss sv).1, (regLoop env (host, port) now ss sv).2, .ok ack⟩
       else registerUnhashable env sv ss
 
